@@ -123,6 +123,18 @@ static void fresh(void)
     nstamp = 0;
     memset(&mp, 0, sizeof mp);
     P = &mp;
+    if (vx_opt_int("reuse", 1)) {
+        /* a first life with another geometry: the same pool object is used, terminated and initialized again,
+         * as a program does that reuses its pools (deterministic: the same in every execution) */
+        cmi_mempool_initialize(P, 16, 4);
+        void *tmp[9];
+        for (int k = 0; k < 9; k++) {
+            tmp[k] = cmi_mempool_alloc(P);
+        }
+        cmi_mempool_free(P, tmp[3]);
+        cmi_mempool_free(P, tmp[7]);
+        cmi_mempool_terminate(P);
+    }
     cmi_mempool_initialize(P, objsz, objnum);
 }
 
